@@ -137,6 +137,11 @@ class Run:
         self.extra: Dict[str, Any] = {}
         self.programs = 0
         self.disagreements_checked = 0
+        # replay files of earlier runs of this tier are stale
+        rd = replay_dir(pid)
+        for f in os.listdir(rd):
+            if f.startswith("%s_%s_" % (pid, tier)):
+                os.unlink(os.path.join(rd, f))
 
     # -- recording -----------------------------------------------------
     def ok(self, name: str, engine: str, solver_s: float = 0.0, **detail):
